@@ -129,6 +129,23 @@ func c10Scenarios(tier string) []e1lib.Scenario {
 			}
 		}
 	}
+	// two independent folds: 300 workers parked on an idle input must not keep a 2-worker fold from delivering
+	for _, par := range []int{40, 300} {
+		c := forkh.Cfg{Stage: "fold2", Par: par, Input: []int{8, 64}, InCap: 0, Monoid: "sum", Stop: -1}
+		chk := c10Check(forkh.Cfg{Stage: "fold", Par: par, Input: c.Input, Monoid: "sum", Stop: -1})
+		dv := 1
+		if par > 100 {
+			dv = 0 // the default schedule only: 600 threads
+		}
+		out = append(out, e1lib.Scenario{Name: forkName(c) + fmt.Sprintf(" deviations<=%d", dv), Root: func() { forkh.Scenario(c) }, Bound: dv, Deviations: true, Sample: c, Sym: true,
+			Check: func(o *obs.Obs) string {
+				if got := o.Strs("gotb"); !obs.Equal(got, []string{"11"}) || !o.Has("gotb-eof") {
+					return fmt.Sprintf("C10/independent-folds|a fold with 2 workers over [5 6], started while a fold with %d workers waits for its input, delivered %v (closed: %v), want [11]; library: %v", par, got, o.Has("gotb-eof"), o.LibBlocked())
+				}
+				return chk(o)
+			},
+			Nontrivial: func(outcomes, execs, states int) bool { return execs > 1 }})
+	}
 	return out
 }
 
